@@ -66,6 +66,8 @@ def run(tier, seed):
                     paths += fstree.spellings(rng, rel)
                 # one link spelled "through" another (a loop in front of a link defeats non-strict resolve())
                 links = [rel[len("root/"):] for rel, k, p in nodes if rel.startswith("root/") and k == "l"]
+                for a in links[-6:]:
+                    paths += ["/%s/secret.txt" % a, "/%s/" % a, "/%s/sib.gmi" % a]
                 for a in links[:4]:
                     for b in links[:4]:
                         up_n = "/".join([".."] * (a.count("/") + 1))
